@@ -129,13 +129,42 @@ def run(ctx):
                           dict(mode=mode, ents=ents, keep=keep, lock=None if lock is None else lock.decode(), B=B, rc=rc))
         if len(want) >= 2:
             distinct.add(tuple(want) + (B,))
+    # ---- a read fault part-way through the root (strace fault injection on getdents64): a listing that is
+    # not the whole root must not be passed off as one (exit 0)
+    for t in range(ctx.n(3, 10)):
+        shutil.rmtree(base, ignore_errors=True)
+        root = os.path.join(base, "root")
+        os.makedirs(root)
+        nd = rng.choice([900, 1500, 2500])
+        for i in range(nd):
+            os.mkdir(os.path.join(root, "2024-%02d-%02d.%d" % (1 + i % 12, 1 + (i // 12) % 28, 1 + i // 336)))
+        open(os.path.join(root, ".running"), "w").write(os.path.join(root, "2024-01-01.1") + "\n")
+        mode = reportgen.MODES[t % 5]
+        conf = rr.conf(mode, root)
+        when = rng.choice([1, 2, 2, 3])
+        B = t % 2 == 1
+        cmd = ["strace", "-f", "-o", "/dev/null", "-e", "trace=getdents64", "-e", "inject=getdents64:error=EIO:when=%d" % when,
+               os.path.join(d, "robsd-ls"), "-m", mode, "-C", conf] + (["-B"] if B else [])
+        rc, out, err = core.run_cmd(cmd, env=dict(os.environ, ASAN_OPTIONS="detect_leaks=0"), timeout=60)
+        got = [l for l in out.decode().split("\n") if l]
+        want = sorted([os.path.join(root, n) for n in os.listdir(root) if not n.startswith(".") and os.path.isdir(os.path.join(root, n))], reverse=True)
+        if B:
+            want = [w for w in want if w != os.path.join(root, "2024-01-01.1")]
+        kinds["read-fault-rc%s" % rc] = kinds.get("read-fault-rc%s" % rc, 0) + 1
+        if rc == 0 and got != want:
+            ctx.violation("robsd-ls%s exited 0 with %d of %d invocations listed although reading the root failed (EIO on its %s getdents64 call)" % (
+                " -B" if B else "", len(got), len(want), ["first", "second", "third"][when - 1]),
+                dict(mode=mode, entries=nd, cmd="strace -e inject=getdents64:error=EIO:when=%d robsd-ls -m %s -C CONF%s" % (when, mode, " -B" if B else ""),
+                     stderr=err.decode(errors="replace")[-300:]))
+        elif rc not in (0, 1) or core.sanitizer_report(err):
+            ctx.violation("robsd-ls: abnormal termination under a read fault", dict(rc=rc, stderr=err.decode(errors="replace")[-300:]))
     ans = ctx.model(reqs) if reqs else []
     for q, a, (want, ents) in zip(reqs, ans, obs):
         if a.strip() != want.strip():
             ctx.disagreement("Ls.lsCmd vs robsd-ls", dict(ents=ents, impl=want, model=a, request=q[:300]))
     ctx.cov.update(dict(
         evaluations=len(reqs), distinct_nontrivial=len(distinct),
-        rule="roots with 0-14 dated directories (several per day, suffixes 1..100), plain files, symlinks to directories/files/nowhere, hidden entries, "
+        rule="(plus roots of 900-2500 invocations read under an injected EIO on the first / second / third getdents64 call: no partial listing with exit 0) roots with 0-14 dated directories (several per day, suffixes 1..100), plain files, symlinks to directories/files/nowhere, hidden entries, "
              "keep directory (always <root>/attic) present as directory / as plain file / absent, lock file present / stale / empty / without newline / naming a prefix of a real "
              "directory / absent, all five modes, with and without -B; non-trivial = distinct expected listing of >= 2 entries; stdout compared with the model and "
              "with the property computed directly from the generated tree",
